@@ -20,13 +20,13 @@ import (
 
 // ---------------------------------------------------------------- history
 type hev struct {
-	seq  uint64
-	kind string // state leaderobs send resp store del setterm voteterm votecand snap stage apply conf restore call ret note
-	node uint64
-	inst int
+	seq           uint64
+	kind          string // state leaderobs send resp store del setterm voteterm votecand snap stage apply conf restore call ret note
+	node          uint64
+	inst          int
 	a, b, c, d, e uint64
-	ents [][4]uint64
-	s    string
+	ents          [][4]uint64
+	s             string
 }
 
 type history struct {
@@ -61,13 +61,13 @@ const (
 )
 
 type cnet struct {
-	mu    sync.Mutex
-	c     *cluster
-	links map[[2]uint64]int
-	gates map[[2]uint64]chan bool // hold gates: true = deliver, false = fail
+	mu      sync.Mutex
+	c       *cluster
+	links   map[[2]uint64]int
+	gates   map[[2]uint64]chan bool                  // hold gates: true = deliver, false = fail
 	filters map[[2]uint64]func(cmd interface{}) bool // per-link content filter: false = the call fails like a down link
-	rpcTO time.Duration
-	holdTO time.Duration
+	rpcTO   time.Duration
+	holdTO  time.Duration
 }
 
 func (n *cnet) mode(from, to uint64) int {
@@ -142,11 +142,11 @@ type ctrans struct {
 	dead     int32
 }
 
-func (t *ctrans) Consumer() <-chan raft.RPC      { return t.consumer }
-func (t *ctrans) LocalAddr() raft.ServerAddress  { return addrStr(t.id) }
+func (t *ctrans) Consumer() <-chan raft.RPC                                { return t.consumer }
+func (t *ctrans) LocalAddr() raft.ServerAddress                            { return addrStr(t.id) }
 func (t *ctrans) EncodePeer(id raft.ServerID, a raft.ServerAddress) []byte { return []byte(a) }
-func (t *ctrans) DecodePeer(b []byte) raft.ServerAddress { return raft.ServerAddress(b) }
-func (t *ctrans) SetHeartbeatHandler(cb func(rpc raft.RPC))          {}
+func (t *ctrans) DecodePeer(b []byte) raft.ServerAddress                   { return raft.ServerAddress(b) }
+func (t *ctrans) SetHeartbeatHandler(cb func(rpc raft.RPC))                {}
 func (t *ctrans) AppendEntriesPipeline(id raft.ServerID, target raft.ServerAddress) (raft.AppendPipeline, error) {
 	return nil, raft.ErrPipelineReplicationNotSupported
 }
@@ -326,24 +326,24 @@ func (t *ctrans) TimeoutNow(id raft.ServerID, target raft.ServerAddress, args *r
 
 // ---------------------------------------------------------------- nodes
 type cnode struct {
-	c      *cluster
-	id     uint64
-	mu     sync.Mutex
-	inst   int
-	r      *raft.Raft
-	trans  *ctrans
-	logs   *MapLogStore
-	stable *MapStable
-	snaps  *SnapStore
-	fsm    *RecFSM
-	alive  bool
-	ops    int64 // durable ops of the current instance
-	freeze int64 // freeze the instance at this durable op (0 = never)
-	frozen chan struct{}
-	frozenImg *image
-	notifyCh chan bool
+	c          *cluster
+	id         uint64
+	mu         sync.Mutex
+	inst       int
+	r          *raft.Raft
+	trans      *ctrans
+	logs       *MapLogStore
+	stable     *MapStable
+	snaps      *SnapStore
+	fsm        *RecFSM
+	alive      bool
+	ops        int64 // durable ops of the current instance
+	freeze     int64 // freeze the instance at this durable op (0 = never)
+	frozen     chan struct{}
+	frozenImg  *image
+	notifyCh   chan bool
 	notifySeen []bool
-	obs    *raft.Observer
+	obs        *raft.Observer
 }
 
 func (n *cnode) curTrans() *ctrans {
@@ -373,17 +373,17 @@ type clusterOpts struct {
 }
 
 type cluster struct {
-	o     clusterOpts
-	h     *history
-	net   *cnet
-	nodes map[uint64]*cnode
-	ids   []uint64
-	cfg   raft.Configuration
-	cfgBytes map[string]uint64
-	cfgMu sync.Mutex
+	o         clusterOpts
+	h         *history
+	net       *cnet
+	nodes     map[uint64]*cnode
+	ids       []uint64
+	cfg       raft.Configuration
+	cfgBytes  map[string]uint64
+	cfgMu     sync.Mutex
 	nextCfgID uint64
-	calls uint64
-	spareIDs []uint64
+	calls     uint64
+	spareIDs  []uint64
 }
 
 func (c *cluster) node(id uint64) *cnode { return c.nodes[id] }
